@@ -28,6 +28,7 @@ var c28Programs = []string{
 	"try { true || out a || out b; out c }",
 	"function vtp { runmode trypipe function; out 1 || out 2 || out 3 }; vtp",
 	"trypipe { false || out a -> regexp m/a/ || out b }",
+	"function vtc (x: int) { out $x }; vtc notanumber; out after",
 }
 
 func c28Scenario(a, b string) *sched.Scenario {
